@@ -88,7 +88,7 @@ def execute(role, state, sends):
         p.close()
         s.quiesce()
 
-    ex, hung = CF.run(body, horizon=60.0, step_budget=60_000)
+    ex, hung = CF.run(body, horizon=60.0, step_budget=20_000)
     out["outcome"] = ex.outcome
     out["error"] = repr(ex.error) if ex.error is not None else None
     out["hung"] = hung
